@@ -168,6 +168,21 @@ CLAIMED["C17"] = dict(
     technique="CBMC: entry points compared through a recording contract on the common funnel",
 )
 
+CLAIMED["C03"] = dict(
+    level="proof",
+    text="PARTIAL.  The memory-safety (bounds, pointer validity, use-after-free, double free, signed overflow) and "
+         "leak obligations CBMC generates for the real functions under contract are discharged from ANY well-formed "
+         "object with invalid arguments included (indices -1, n, n+1, dead handles, full containers), for: vnadata "
+         "(cells, matrices, z0 modes, resize, add_frequency, free, in-place convert), the vnacal calibration and "
+         "parameter tables incl. vnacal_free and teardown, property lists/maps, spline and rfi kernels, and the save "
+         "formatters within ordinary precisions.  Invariant preservation (C15/C16/C13) extends this to every history "
+         "of those operations, within the stated shape bounds.",
+    note="NOT covered: vnacal_new_add_*/solve, save/load bodies, YAML, descriptor parser, floating-point UB, "
+         "zero-length memcpy/memset with NULL; see DESIGN 8.12",
+    design="DESIGN.md 3 C03, 8.12",
+    technique="CBMC standard checks + memory-leak check on the contract harnesses (invariants give all histories)",
+)
+
 NA = {
     "C02": "iterative floating-point convergence (Levenberg-Marquardt / TRL) has no contract CBMC can discharge; see DESIGN.md 3 C02",
     "C06": "property is about bytes written by fprintf and read by an independent reader; no CBMC model of formatted I/O (a stub would be the oracle); DESIGN.md 3 C06",
@@ -176,8 +191,11 @@ NA = {
     "C14": "behaviour of libyaml's emitter/parser (external dependency without contract); DESIGN.md 3 C14",
 }
 
-NOT_YET = {k: "check not built yet in this round (planned, see DESIGN.md 3); not claimed until it runs"
-           for k in ("C01", "C03", "C04", "C05", "C07", "C10", "C11", "C12", "C13", "C16", "C17", "C18", "C19", "C20")}
+NOT_YET = {
+    "C18": "not built: the decidable clauses (weights indexing, NULL-vectors reset, T16 full-S refusal) need a well-formed vnacal_new_t measurement/equation graph constructor that was not written; statistical clauses are outside contract verification (DESIGN 8.12)",
+    "C19": "backward stability is a floating-point statement outside contract verification; the planned structural claims on _vnacommon_lu (row scaling, pivot rule, zero pivot) were not built (DESIGN 8.12)",
+    "C20": "the counting clause needs the vnacal_new_t equation-list constructor and the solver skeletons under contract; not built; numerical rank/accuracy clauses are outside contract verification (DESIGN 8.12)",
+}
 for k in CLAIMED:
     NOT_YET.pop(k, None)
 
